@@ -37,8 +37,8 @@ META = {
                   "The structural fingerprint treats tuple/list containers of hyper-parameters as equivalent only for the equality "
                   "judgement of data *values*; container type changes are reported by the hash monitor of C04.",
     "shards": {"quick": 4, "thorough": 16},
-    "budget_s": {"quick": 70, "thorough": 170},
-    "min_evals": {"quick": 6000, "thorough": 80000},
+    "budget_s": {"quick": 150, "thorough": 300},
+    "min_evals": {"quick": 3000, "thorough": 40000},
     "min_nontrivial": {"quick": 500, "thorough": 5000},
     "deciding": ["rt.copy", "rt.deepcopy", "rt.pickle", "rt.pytree", "rt.jax", "alias.deepcopy", "bind.params"],
     "rule": "case = one (object, round-trip path); distinct = distinct (class, data fingerprint, path); non-trivial = the object has "
@@ -178,9 +178,9 @@ def run(ctx):
 
     ctx.note("import_s", round(ctx.elapsed(), 1))
     classes = [c.__name__ for c in opzoo.classes(qp) if c.__name__ != "ParametrizedEvolution" or not ctx.quick]
-    per_class = 3 if ctx.quick else 30
+    per_class = 2 if ctx.quick else 30
     work = [("zoo", n) for _ in range(per_class) for n in classes]
-    n_expr, n_mp = (700, 300) if ctx.quick else (10000, 3000)
+    n_expr, n_mp = (500, 250) if ctx.quick else (10000, 3000)
     work += [("expr", None)] * n_expr + [("mp", None)] * n_mp
     ncap = [0]
     for i, (src, name) in enumerate(work):
